@@ -10152,11 +10152,12 @@ func (l *Lowerer) resolveType(typ parser.Type) (ir.TypeHandle, error) {
 		}
 		var size *uint32
 		if t.Size != nil {
-			if lit, ok := t.Size.(*parser.Literal); ok && lit.Kind == parser.TokenIntLiteral {
-				n, _ := strconv.ParseUint(lit.Value, 0, 32)
-				s := uint32(n)
-				size = &s
+			n, ok := l.tryEvalConstantUint(t.Size)
+			if !ok || n == 0 {
+				return 0, fmt.Errorf("binding_array size must be a constant expression greater than 0")
 			}
+			s := uint32(n)
+			size = &s
 		}
 		return l.registerType("", ir.BindingArrayType{Base: base, Size: size}), nil
 	default:
